@@ -147,3 +147,152 @@ theorem initP_variant (ps : List Shape) (ih : ∀ p ∈ ps, InitP p) :
         simpa [validVariant, denoteVariant] using g3 hok.2
 
 end Unsized
+
+namespace Unsized
+open Common
+
+theorem initP_all (s : Shape) : InitP s := by
+  induction s using Shape.induct' with
+  | fixed f =>
+    intro a h
+    simp only [initOk] at h
+    refine ⟨by simp [initBytes, denote, encode], by simp [initSize, size], ?_⟩
+    intro top inEnum hok
+    simp only [Shape.okAux, Bool.and_eq_true] at hok
+    obtain ⟨h1, h2, h3⟩ := initFixed_valid f a h hok.1
+    simp [denote, valid, h1, h2, h3]
+  | list e lw =>
+    intro a h
+    cases a <;> simp [initOk] at h
+    · exact ⟨by simp [initBytes, denote, encode, leN_zero], by simp [initSize, denote, size],
+        fun _ _ _ => by simp [denote, valid]⟩
+    · rename_i es
+      refine ⟨by simp [initBytes, denote, encode], by simp [initSize, denote, size], ?_⟩
+      intro _ _ _
+      simp only [denote, valid, List.all_eq_true, Bool.and_eq_true, beq_iff_eq, decide_eq_true_eq]
+      intro x hx; exact h x hx
+  | set e lw =>
+    intro a h
+    cases a <;> simp [initOk] at h
+    exact ⟨by simp [initBytes, denote, encode, leN_zero], by simp [initSize, denote, size],
+      fun _ _ _ => by simp [denote, valid, strictKeys]⟩
+  | map kw v lw =>
+    intro a h
+    cases a <;> simp [initOk] at h
+    exact ⟨by simp [initBytes, denote, encode, leN_zero], by simp [initSize, denote, size],
+      fun _ _ _ => by simp [denote, valid, strictKeys]⟩
+  | str lw =>
+    intro a h
+    cases a <;> simp [initOk] at h
+    exact ⟨by simp [initBytes, denote, encode, leN_zero], by simp [initSize, denote, size],
+      fun _ _ _ => by simp [denote, valid, utf8Valid, utf8Go]⟩
+  | rem =>
+    intro a h
+    cases a <;> simp [initOk] at h
+    · exact ⟨by simp [initBytes, denote, encode], by simp [initSize, denote, size],
+        fun _ _ _ => by simp [denote, valid]⟩
+    · rename_i es
+      have hfl : es.flatten.length = es.length := by
+        rw [flatten_length 1 es (fun x hx => (h x hx).1)]; omega
+      refine ⟨by simp [initBytes, denote, encode], by simp [initSize, denote, size, hfl], ?_⟩
+      intro _ _ _
+      simp only [denote, valid, decide_eq_true_eq]
+      intro b hb
+      simp only [List.mem_flatten] at hb
+      obtain ⟨x, hx, hbx⟩ := hb
+      exact (h x hx).2 b hbx
+  | ulist e ih =>
+    intro a h
+    cases a <;> simp [initOk] at h
+    · exact ⟨by simp only [initBytes, denote, encode, List.map_nil, List.sum_nil, List.length_nil,
+          offsets, List.flatten_nil, List.append_nil]; rfl,
+        by simp [initSize, denote, size], fun _ _ _ => by simp [denote, valid]⟩
+    · rename_i is
+      have hb : is.map (initBytes e) = (is.map (denote e)).map (encode e) := by
+        rw [List.map_map]; apply List.map_congr_left; intro x hx; exact (ih x (h x hx)).1
+      have hs : is.map (initSize e) = (is.map (denote e)).map (size e) := by
+        rw [List.map_map]; apply List.map_congr_left; intro x hx; exact (ih x (h x hx)).2.1
+      refine ⟨by simp [initBytes, denote, encode, hb], by simp [initSize, denote, size, hs]; omega, ?_⟩
+      intro top inEnum hok
+      simp only [Shape.okAux, Bool.and_eq_true] at hok
+      simp only [denote, valid, List.all_eq_true, List.mem_map]
+      rintro v ⟨x, hx, rfl⟩
+      exact (ih x (h x hx)).2.2 false false hok.1
+  | umap kw e ih =>
+    intro a h
+    cases a <;> simp [initOk] at h
+    exact ⟨by simp only [initBytes, denote, encode, List.map_nil, List.sum_nil, List.length_nil,
+        offsets, List.zipWith_nil_right, List.flatten_nil, List.append_nil]; rfl,
+      by simp [initSize, denote, size], fun _ _ _ => by simp [denote, valid, strictKeys]⟩
+  | struct sized fs ih =>
+    intro a h
+    cases a <;> simp [initOk] at h
+    · obtain ⟨g1, g2, g3⟩ := initP_default_fields fs ih h
+      refine ⟨by simp [initBytes, denote, encode, g1], by simp [initSize, denote, size, g2], ?_⟩
+      intro top inEnum hok
+      simp only [Shape.okAux, Bool.and_eq_true] at hok
+      have hz := valid_zeros (.record sized) (by simpa [Fixed.okF] using hok.1.1.1)
+      simp only [Fixed.valid, Fixed.size] at hz
+      simp [denote, valid, hz, g3 hok.2, zeros_wf]
+    · rename_i sz is
+      obtain ⟨g1, g2, g3⟩ := initP_fields fs ih is h.2
+      refine ⟨by simp [initBytes, denote, encode, g1], by simp [initSize, denote, size, g2], ?_⟩
+      intro top inEnum hok
+      simp only [Shape.okAux, Bool.and_eq_true] at hok
+      by_cases hemp : sized = []
+      · subst hemp
+        have hsz : initFixedBytes (.record []) sz = [] := by
+          cases sz <;> simp at h <;> simp [initFixedBytes, zeros, Fixed.size, Fixed.sizeList]
+        simp [denote, valid, hsz, Fixed.sizeList, Fixed.validList, g3 hok.2]
+      · have hfx := initFixed_valid (.record sized) sz (by simpa [hemp] using h.1)
+          (by simpa [Fixed.okF] using hok.1.1.1)
+        simp only [Fixed.valid, Fixed.size] at hfx
+        simp [denote, valid, hfx.1, hfx.2.1, hfx.2.2, g3 hok.2]
+  | enum ds ps ih =>
+    intro a h
+    cases a with
+    | default =>
+      cases ds with
+      | nil => simp [initOk] at h
+      | cons d ds =>
+        cases ps with
+        | nil => simp [initOk] at h
+        | cons p ps =>
+          simp only [initOk] at h
+          obtain ⟨h1, h2, h3⟩ := ih p (by simp) .default h
+          refine ⟨by simp [initBytes, denote, encode, encodeVariant, h1],
+            by simp [initSize, denote, size, sizeVariant, h2]; omega, ?_⟩
+          intro top inEnum hok
+          simp only [Shape.okAux, Shape.okPayloads, Bool.and_eq_true] at hok
+          simp [denote, valid, validVariant, h3 false true hok.2.1]
+    | variant i arg =>
+      simp only [initOk, Bool.and_eq_true, decide_eq_true_eq] at h
+      obtain ⟨g1, g2, g3⟩ := initP_variant ps ih ds i arg h.1 h.2
+      refine ⟨by simp [initBytes, denote, encode, g1], by simp [initSize, denote, size, g2]; omega, ?_⟩
+      intro top inEnum hok
+      simp only [Shape.okAux, Bool.and_eq_true] at hok
+      simp [denote, valid, h.1, g3 hok.2]
+    | owned l => simp [initOk] at h
+    | array es => simp [initOk] at h
+    | uarray is => simp [initOk] at h
+    | fields sz is => simp [initOk] at h
+  | unit =>
+    intro a h
+    cases a <;> simp [initOk] at h
+    exact ⟨by simp [initBytes, encode], by simp [initSize, size], fun _ _ _ => by simp [denote, valid]⟩
+  | disc d inner ih =>
+    intro a h
+    have h' : initOk inner a = true := by cases a <;> simpa [initOk] using h
+    obtain ⟨h1, h2, h3⟩ := ih a h'
+    have e1 : ∀ v, encode (.disc d inner) v = d ++ encode inner v := by intro v; cases v <;> rfl
+    have e2 : ∀ v, size (.disc d inner) v = size inner v + d.length := by intro v; cases v <;> rfl
+    have e3 : ∀ v, valid (.disc d inner) v = valid inner v := by intro v; cases v <;> rfl
+    have i1 : initBytes (.disc d inner) a = d ++ initBytes inner a := by cases a <;> rfl
+    have i2 : initSize (.disc d inner) a = initSize inner a + d.length := by cases a <;> rfl
+    have i3 : denote (.disc d inner) a = denote inner a := by cases a <;> rfl
+    refine ⟨by rw [i1, i3, e1, h1], by rw [i2, i3, e2, h2], ?_⟩
+    intro top inEnum hok
+    simp only [Shape.okAux, Bool.and_eq_true] at hok
+    rw [i3, e3]; exact h3 false false hok.2
+
+end Unsized
